@@ -37,6 +37,9 @@ CHECKS["C08"] = dict(engine="explorer", technique="exhaustive enumeration (viabl
 CHECKS["C09"] = dict(engine="explorer", technique="exhaustive enumeration of request texts (viable-prefix token DFS, character-unit and byte strings) and of parser-accepted ASTs handed unvalidated to every entry point; termination decided by a deterministic step counter, not by time",
    text="Every text of the token enumeration (6 alphabets, 3-10 tokens), every string of up to 4 (5) character units incl. BOM, e-acute, U+2028, U+0085, emoji, and up to 3 (4) raw bytes, alone and inside braces, goes to Do, Subscribe and PlanCache.Get (plain, normalising, nil); every parser-accepted AST goes unvalidated to ValidateDocument, PlanQuery, Execute, ExecuteSubscription and Print; 300+ fragment topologies with cycles through spreads and fields; variable maps holding 25 kinds of Go values; 14 zero-valued parameter calls. Oracle: no panic, call finishes within 400000 counted steps, result marshals to JSON, no data when parsing or validation failed, an error whenever data is absent.",
    ref="5 C09", note="Step counter = instrumenter-inserted increments at every function entry and loop body of the library. A 3 s wall-clock wait is used only when reading subscription channels (no source involved).")
+CHECKS["C17"] = dict(engine="explorer", technique="bounded exhaustive fault placement: stateless DFS over which extension hooks panic (with which kind of value) and over the iteration order of the finish-function maps, oracle on each extension's event log",
+   text="6 request outcomes (syntax error, validation error, variable error, field error, success, panicking resolver) x 1-3 extensions x every placement of <= 3 (4) deviations (2/3 with three extensions) among: a hook of any extension (Init, Parse/Validation/Execution/ResolveField start and finish, HasResult, GetResult) panicking with an error, a string or a struct, and a permuted iteration of a finish-function map. Oracle per extension: phases in pipeline order, properly nested, every started phase finished exactly once, the full expected log with the right finish arguments when nothing panics; every panic is reported as an error naming the extension; nothing escapes Do; every hook and resolver receives the caller's context.",
+   ref="5 C17", note="Finish-map iteration order comes from the instrumenter's map-range seam.")
 NOT_YET = {}
 ALL = ["C%02d" % i for i in range(1, 21)]
 
